@@ -18,6 +18,7 @@
 (*         vars  RAM variables (loop_counter)                              *)
 (*         outs  relation name |-> tuples written by an output IO          *)
 (*         ei    index of the EDB of this behaviour                        *)
+(*         rtab  the record table (see RECORDS AND ADTS below)             *)
 (* One action per statement kind; the action names are the event kinds of  *)
 (* the interpreter trace (hook H5): CallBegin, CallEnd, IO, Query, Assign, *)
 (* LoopBegin, LoopIter, LoopEnd, Exit, Swap, Clear, MergeExtend.           *)
@@ -25,31 +26,35 @@
 (* Values: integers (signed words; unsigned as signed twins) and strings.  *)
 (*                                                                         *)
 (* RECORDS AND ADTS.  As in the real engine a record value is an integer:  *)
-(* a reference into a RECORD TABLE (souffle/datastructure/RecordTableImpl.h)*)
-(* which is part of the machine state (variable rtab).  rtab.t is a        *)
-(* sequence of entries [k |-> key, t |-> tuple]; reference r > 0 denotes   *)
-(* rtab.t[r].t, reference 0 is nil.  PACK looks the tuple up and appends   *)
-(* it when it is new (hash-consing: equal tuples get equal references,     *)
-(* different tuples different ones); UNPACK reads the entry and skips its   *)
-(* body when the reference is 0 (Engine.cpp CASE(UnpackRecord)).           *)
-(* The real table has one map per arity; here one sequence serves all      *)
-(* arities, which renames references injectively - no well-typed program   *)
-(* can observe the difference, and an UNPACK whose arity differs from the  *)
-(* entry's is recorded in rtab.bad (invariant RecordsOK).  TLC cannot       *)
-(* compare a string with an integer, and tuples of one arity may hold      *)
-(* either at a position ([1,"a"] and [1,2]), so the look-up compares the   *)
-(* keys k = ToString(tuple) (injective on tuples of integers and strings). *)
+(* a reference into a RECORD TABLE                                         *)
+(* (souffle/datastructure/RecordTableImpl.h) which is part of the machine  *)
+(* state (variable rtab).  rtab.t is a sequence of entries [k |-> key, t   *)
+(* |-> tuple]; reference r > 0 denotes rtab.t[r].t, reference 0 is nil.    *)
+(* PACK looks the tuple up and appends it when it is new (hash-consing:    *)
+(* equal tuples get equal references, different tuples different ones);    *)
+(* UNPACK reads the entry and skips its body when the reference is 0       *)
+(* (Engine.cpp CASE(UnpackRecord)).  The real table has one map per arity; *)
+(* here one sequence serves all arities, which renames the references      *)
+(* injectively - no well-typed program can observe that, and an UNPACK     *)
+(* whose arity differs from the entry's is recorded in rtab.bad (invariant *)
+(* RecordsOK).  TLC cannot compare a string with an integer, and tuples of *)
+(* one arity may hold either at a position ([1,"a"] and [1,2]), so the     *)
+(* look-up compares the keys k = ToString(tuple), which is injective on    *)
+(* tuples of integers and strings.                                         *)
 (* Because PACK occurs inside expressions (also in conditions and index    *)
-(* bounds: `(PACK(t0.0,"z"),_) IN r0`), evaluation THREADS the table:      *)
-(* EvalE returns <<value, table'>>, EvalC <<truth, table'>>, Exec a result *)
-(* with field T; sub-evaluations happen left to right, each one starting   *)
-(* from the table the previous one returned.  The order in which records   *)
-(* get their references is unobservable: relations are compared by         *)
+(* bounds: `(PACK(t0.0,"z"),_) IN r0`), evaluation THREADS the table, as   *)
+(* the engine's side effect on its table does: EvalE returns <<value,      *)
+(* table'>>, EvalC <<truth, table'>>, Exec a result with field T;          *)
+(* sub-evaluations happen left to right, each starting from the table the  *)
+(* previous one returned.  (Pre-interning all records was rejected: the    *)
+(* records a program builds depend on the data.)  The order in which       *)
+(* records get their references is unobservable: relations are compared by *)
 (* cardinality (trace) and BY VALUE (FinalIsModel): an output IO decodes   *)
 (* every tuple through the table (Dec, a transcription of WriteStream.h    *)
 (* outputRecord/outputADT) into the value form of spec/Datalog.tla         *)
-(* (<<"nil">>, <<"rec", v..>>, <<"adt", branch, v..>>), an input IO packs   *)
-(* the EDB values (Enc, a transcription of ReadStream.h readRecord/readADT).*)
+(* (<<"nil">>, <<"rec", v..>>, <<"adt", branch, v..>>); an input IO packs  *)
+(* the EDB values (Enc, a transcription of ReadStream.h                    *)
+(* readRecord/readADT).                                                    *)
 (* ADT encoding (ast2ram ValueTranslator.cpp visit_(BranchInit)): branch   *)
 (* id = index in the list of branches sorted by name; an enum-only ADT is  *)
 (* the plain number id; otherwise [id, arg] for a branch with one argument *)
